@@ -11,7 +11,7 @@ from vlib.runner import Violation, Inconclusive
 from vlib import backends as B
 
 ID = "C20"
-BUDGET = {"quick": 320, "thorough": 3200}
+BUDGET = {"quick": 320, "thorough": 2400}
 CASE_TIMEOUT = {"quick": 300, "thorough": 600}
 RULE = (
     "models with dependency chains of drawn depth 1-40 (thorough: 1-60), side branches and diamonds (and, one case "
